@@ -114,7 +114,22 @@ func (x *fx) call(i *ssa.Call, cc *ssa.CallCommon) {
 		ord := x.callOrdinal(i, dname)
 		for k, cl := range x.c.Asserts {
 			if cl.Kind == "assert:"+dname && cl.Loop == ord {
-				g := x.evalBool(cl.E, x.instrEnv(i))
+				env := x.instrEnv(i)
+				// arg0, arg1, ... name the call's arguments
+				baseLook := env.look
+				cargs := cc.Args
+				env.look = func(n string) *Val {
+					if strings.HasPrefix(n, "arg") {
+						var k int
+						if _, err := fmt.Sscanf(n[3:], "%d", &k); err == nil && k < len(cargs) {
+							if v, ok := x.lookupVal(cargs[k]); ok {
+								return v
+							}
+						}
+					}
+					return baseLook(n)
+				}
+				g := x.evalBool(cl.E, env)
 				if o := x.oblige("assert", fmt.Sprintf("%s#%d:%s", dname, ord, clauseLabel(cl, k)), g, "assertion before call "+dname+"#"+fmt.Sprint(ord)+": "+cl.Src); o != nil {
 					o.Src, o.Line = cl.Src, cl.Line
 				}
@@ -278,6 +293,24 @@ func (x *fx) staticCall(f *ssa.Function, bindings []ssa.Value, cc *ssa.CallCommo
 		fv := &Val{T: f.Type(), S: fmt.Sprint(x.g.funcID(f))}
 		set(x.pureFnCall(fv, f.Signature, args))
 		return
+	}
+	if full == "bytes.Equal" && x.c.Pure["Compare"] {
+		// bytes.Equal(a, b) == (bytes.Compare(a, b) == 0)
+		var cmpSig *types.Signature
+		for _, imp := range x.fn.Pkg.Pkg.Imports() {
+			if imp.Name() == "bytes" {
+				if fo, ok := imp.Scope().Lookup("Compare").(*types.Func); ok {
+					cmpSig = fo.Type().(*types.Signature)
+				}
+			}
+		}
+		if cmpSig != nil {
+			fv := &Val{T: cmpSig, S: fmt.Sprint(x.g.funcIDByName("bytes.Compare"))}
+			c := x.pureFnCall(fv, cmpSig, args)
+			set(&Val{T: tBool, S: "(= " + c.S + " " + x.intConst(bigI(0), tInt) + ")"})
+			x.assumptions["bytes.Equal(a,b) == (bytes.Compare(a,b) == 0)"] = true
+			return
+		}
 	}
 	if x.externalModel(full, f, args, rt, set) {
 		return
